@@ -90,6 +90,13 @@ CHECKS.update({
    note="Trusted base: TLC 1.8 evaluating spec/Prefix.tla; checks/c18.py which maps each selection site to an observable set."),
 })
 
+CHECKS.update({
+ "C17": dict(engine="c17", category="model_checking", design_ref="§8 C17",
+   technique="TLA+ semantics of named glob patterns on path components plus a transcription of the regex translation as built (spec/NGlobSem.tla), evaluated by TLC on enumerated/seeded patterns (spec/NGlob.tla) and replayed into NamedGlob on real directory trees; TLA+ model of incremental maintenance (spec/NGlobModel.tla) checked exhaustively",
+   text="TLC evaluates, for every pattern (all patterns of <=2 components x <=2 tokens in the thorough tier, plus seeded random ones with classes, `**`, names, substitutions, repeated names, trailing separators), the meaning Accept, the standard-glob prefilter, and the matcher as built AM on a universe of 155 paths as file and as directory. The harness builds random real trees and requires: code matcher == AM; Python's standard recursive glob == Accept of the anonymised pattern; recorded set == prefilter ∩ AM; recorded bindings are bindings of AM; named variants record the same paths; will_change() along random event batches == the specification's extend/reduce. Differences between meaning and as-built matcher are exactly the named deviations (known findings F18-F20); anything else is a violation. NGlobModel.tla model-checks incremental == rescan for Watcher-style accumulation.",
+   note="Trusted base: TLC 1.8 evaluating spec/NGlobSem.tla; checks/c17.py (pattern rendering, tree construction). Alphabet a b . with names a b ab .a b.a, depth <= 3; substitutions stay inside one component; no symbolic links."),
+})
+
 PENDING = ["C01","C02","C04","C05","C06","C07","C11","C13","C14","C16","C17","C18","C20"]
 
 def main():
@@ -124,6 +131,7 @@ def main():
             {"name": "crash", "path": "checks/crash.py", "serves_properties": ["C05"],
              "kind_free_text": "snapshot-based crash injection at every commit / step fs action / cleanup removal of Layer B executions"},
             {"name": "c16", "path": "checks/c16.py", "serves_properties": ["C16"], "kind_free_text": "Rpc.tla exhaustive model check + trace validation of the real RPCServerConnection"},
+            {"name": "c17", "path": "checks/c17.py", "serves_properties": ["C17"], "kind_free_text": "NGlobSem.tla vectors replayed into NamedGlob on real trees + NGlobModel.tla exhaustive model check"},
             {"name": "c18", "path": "checks/c18.py", "serves_properties": ["C18"], "kind_free_text": "Prefix.tla vectors replayed into every directory-selection site of the real code"},
             {"name": "history", "path": "checks/history.py", "serves_properties": sorted(p for p, c in CHECKS.items() if c["engine"] == "history"),
              "kind_free_text": "Layer B histories; final states of related executions compared by TLC through spec/RelCheck.tla"},
